@@ -378,6 +378,8 @@ def run_tunnel(script):
         mon = loop.run(main(), max_vtime=1e6)
     finally:
         loop.finish()
+    if gw.receive_path_exceptions:
+        hist.append(("receive_path_exceptions_recorded", [e[2] for e in gw.receive_path_exceptions]))
     return mon, hist, box["losses"], gw.n_hb, box.get("late", 0)
 
 
@@ -403,6 +405,8 @@ def judge_tunnel(ctx, script):
         ctx.inconclusive(f"tunnel heartbeat script {script!r}: driver did not finish: {exc!r}")
         return
     ctx.count("tunnel_runs")
+    if hist and hist[-1][0] == "receive_path_exceptions_recorded":
+        ctx.count("receive_path_exceptions_recorded", len(hist[-1][1]))
     ctx.count("tunnel_connectionstate_requests", n_hb)
     ctx.count("tunnel_losses_declared", losses)
     ctx.distinct(("tunnel", script))
